@@ -121,10 +121,39 @@ def run(c, index, tier):
     if n == 1:
         c.probe("n_equals_1")
 
+    model = IntervalRegressor(estimator=local, n_estimators=n_est, alpha=alpha, n_jobs=n_jobs)
+    if ch.boolean("w", 0.3, "history-before"):
+        # the same object has a past: a fit on another training set with
+        # another number of models, queried, then possibly a fit that died at
+        # one of its resamples.  Everything checked below is about the last fit.
+        rs0 = numpy.random.RandomState(ch.subseed("w", "data-before"))
+        n0 = ch.integer("w", 2, 14, "n-before")
+        X0 = U.unique_rows(rs0, n0, d) * 1.3 - 0.2
+        y0 = numpy.round(rs0.randn(n0), 5) + numpy.arange(n0) * 1e-3
+        k0 = ch.integer("w", 1, 9, "n_estimators-before")
+        c.entropy = E.Entropy("pinned")
+        c.fault_plan = P.FaultPlan(())
+        numpy.random.seed((g + 1) % (2**32 - 1))
+        model.set_params(n_estimators=k0)
+        ok0, _ = U.sut(c, "fit(before)", model.fit, X0, y0)
+        if ok0:
+            U.sut(c, "predict(before)", model.predict, X0)
+            U.sut(c, "predict_sorted(before)", model.predict_sorted, X0[:1])
+        sites = [s_ for s_ in c.fault_plan.seen if s_[2] == "fit"]
+        if sites and ch.boolean("f", 0.6, "fit-before-dies"):
+            site = sites[ch.draw("f", len(sites), "site")]
+            kind = ch.weighted("f", [("runtime", 3), ("value", 2), ("cancel", 1)], "fault-kind")
+            c.fault_plan = P.FaultPlan([site], kind)
+            numpy.random.seed((g + 1) % (2**32 - 1))
+            okf, _ = U.sut(c, "fit(before, dies)", model.fit, X0, y0)
+            if c.fault_plan.fired:
+                c.probe("earlier_fit_died_at_a_resample")
+        model.set_params(n_estimators=n_est)
+        c.scenario["history_before"] = {"n": n0, "n_estimators": k0}
+        c.probe("fitted_before_on_other_data")
     c.entropy = E.Entropy(mode, force_extremes=(mode == "adversarial"))
     c.fault_plan = None
     numpy.random.seed(g % (2**32 - 1))
-    model = IntervalRegressor(estimator=local, n_estimators=n_est, alpha=alpha, n_jobs=n_jobs)
     Xc, yc = X.copy(), y.copy()
     if w is None:
         ok, r = U.sut(c, "fit", model.fit, X, y)
